@@ -170,6 +170,9 @@ func TestC07Directed(t *testing.T) {
 			for p := 0; p < nn; p++ {
 				specs = append(specs, SchedSpec{Kind: "starve", P: p}, SchedSpec{Kind: "prestart", P: p})
 			}
+			for _, rounds := range []int{1, 2, 3} { // a duplicate of every delivery, about `rounds` rounds late
+				specs = append(specs, SchedSpec{Kind: "duplate", P: rounds * nn * (nn - 1)})
+			}
 			// one message arbitrarily late: for every message type and every link it travels on, that copy is
 			// held back until nothing else can be delivered (first configuration: every link; others: one link per type)
 			pre := run.build()
